@@ -129,7 +129,7 @@ theorem safe_all (f : Nat) : SafeAt f := by
         · simp [Res.sat, hG]
         · rename_i clo hn
           have hclo : GoodClo clo := hG clo (List.mem_of_getElem? hn)
-          have ha := ih.activate c clo { st with sched := s } hclo
+          have ha := ih.activate c clo { st with sched := s, acts := st.acts + 1 } hclo
           split
           · rename_i c' clo' st' heq
             rw [heq] at ha
@@ -172,7 +172,7 @@ closure owns its clone ends `ok` (or the model's fuel was too small) under every
 theorem run_safe (p : Plan) (h : p.allOwn = true) (sched : Schedule) (fuel : Nat) :
     run p sched fuel = .ok ∨ run p sched fuel = .outOfFuel := by
   unfold run
-  have hc := (safe_all fuel).construct p.items true [] ⟨sched, 0⟩ h rfl good_nil
+  have hc := (safe_all fuel).construct p.items true [] ⟨sched, 0, 0⟩ h rfl good_nil
   split
   · rename_i c cs st heq
     rw [heq] at hc
@@ -328,7 +328,7 @@ theorem fuel_all (f : Nat) : FuelAt f := by
         · simp only [Res.fine, hs, List.length_cons]; exact ⟨by omega, hB⟩
         · rename_i clo hn
           have hclo : sizeL clo.body + 2 ≤ w := hB clo (List.mem_of_getElem? hn)
-          have ha := ih.activate c clo { st with sched := s } w hclo (by simp only []; omega)
+          have ha := ih.activate c clo { st with sched := s, acts := st.acts + 1 } w hclo (by simp only []; omega)
           split
           · rename_i c' clo' st' heq
             rw [heq] at ha
@@ -369,7 +369,7 @@ theorem fuel_adequate (p : Plan) (sched : Schedule) (fuel : Nat) (h : fuelFor p 
     run p sched fuel ≠ .outOfFuel := by
   unfold fuelFor at h
   unfold run
-  have hc := (fuel_all fuel).construct p.items true [] ⟨sched, 0⟩ 0 (bounded_nil 0) (by simp only []; omega)
+  have hc := (fuel_all fuel).construct p.items true [] ⟨sched, 0, 0⟩ 0 (bounded_nil 0) (by simp only []; omega)
   split
   · rename_i c cs st heq
     rw [heq] at hc
